@@ -1513,14 +1513,19 @@ where
     I: IntoIterator,
     I::Item: TokenTree<'t>,
 {
+    let alternatives: Vec<_> = trees
+        .into_iter()
+        .map(|tree| tree.into_token().fold_map(|_| ()))
+        .collect();
+    // An alternation with no alternatives matches only the empty path (just as the empty glob
+    // does), but it contributes no term at all when it is nested in another token tree and so
+    // queries over that tree disagree with what the tree matches. The empty token is equivalent
+    // and has well defined terms.
+    if alternatives.is_empty() {
+        return Token::empty(());
+    }
     Token {
-        topology: BranchKind::from(Alternation(
-            trees
-                .into_iter()
-                .map(|tree| tree.into_token().fold_map(|_| ()))
-                .collect(),
-        ))
-        .into(),
+        topology: BranchKind::from(Alternation(alternatives)).into(),
         annotation: (),
     }
 }
